@@ -406,7 +406,7 @@ class instrument:
 
     TARGETS = ["NamedTemporaryFile", "JokerSamples.write", "h5py.File", "tb.open_file", "read_batch",
                "batch_marginal_ln_likelihood", "batch_get_posterior_samples", "pool.map", "JokerSamples.unpack",
-               "JokerSamples.pack", "h5py.create_dataset", "h5py.File.close", "NamedTemporaryFile.close"]
+               "JokerSamples.pack", "h5py.create_dataset", "h5py.File.close", "NamedTemporaryFile.close", "os.path.exists"]
 
     def __init__(self, recorder):
         self.rec = recorder
@@ -446,6 +446,20 @@ class instrument:
             f.close = close
             return f
         self._set(tu, "NamedTemporaryFile", ntf)
+
+        # os.path.exists(<temp file>) whose stat fails (EIO / ESTALE on a network TMPDIR): the real function swallows the OSError and
+        # answers False - so does this one at the injected occurrence.  Not an exception: only the no-leak clause applies.
+        orig_exists = os.path.exists
+
+        def exists(path_):
+            kind, _i = rec.fid(path_) if isinstance(path_, (str, os.PathLike)) else (None, 0)
+            if kind == "temp":
+                try:
+                    rec.hit("os.path.exists")
+                except BaseException:
+                    return False
+            return orig_exists(path_)
+        self._set(os.path, "exists", exists)
 
         orig_write = JokerSamples.write
 
